@@ -374,6 +374,11 @@ class ConfigManager:
                     "INSERT OR REPLACE INTO settings (key, value) VALUES ('current_environment_api_url', ?)",
                     (DEFAULT_ENVIRONMENT.api_url,),
                 )
+                # The active-profile setting is a bare name: clear it with the
+                # environment it was chosen in (as switching environments does),
+                # so a same-named profile of the default environment is not
+                # silently activated.
+                conn.execute("DELETE FROM settings WHERE key = 'current_profile'")
 
             conn.commit()
             return True
